@@ -35,13 +35,15 @@ RULE = ('E1 (Hypothesis): a frame of 2..24 rows with 1-3 geometry columns (7 kin
         'pack_partitions_to_parquet(npartitions 1..16) of such a frame with a drawn active column; >= 11 partitions frequent '
         '(textual order part.10 < part.2). One dataset, or two datasets read through a list (drawn order) or a glob. '
         'geometry= drawn from {not given} + geometry columns. Checked for every loaded partition i (load order) and every '
-        'geometry column: total bounds recomputed in plain Python from the canonical elements of the rows in partition i == '
-        'row i of the JSON in _common_metadata == row i of _partition_bounds[col] == row i of ddf[col].partition_bounds '
-        '(exact, NaN-aware). 1-3 boxes with edges drawn from the row extents themselves, +-1/2, +-1, midpoints and far values '
-        '(so boxes touch partition extents exactly, are degenerate, reversed or disjoint from everything): the partitions of '
+        'geometry column: row "i" of the JSON in _common_metadata == total bounds (plain Python) of the rows that pyarrow finds in '
+        'part.i.parquet; total bounds recomputed from the canonical elements of the rows of loaded partition i == row i of '
+        '_partition_bounds[col] == row i of ddf[col].partition_bounds (exact, NaN-aware). 1-3 boxes with edges drawn from the row extents themselves, +-1/2, +-1, midpoints and far values '
+        'or aimed at one written partition / row extent: sharing exactly one edge or one corner with it, lying inside it, degenerate '
+        '(so boxes touch partition extents exactly, are reversed in x and/or y, or disjoint from everything): the partitions of '
         'read_parquet_dask(bounds=box) are exactly those whose recorded extent of the active column overlaps the closed '
-        'normalised box, their rows are those of the unpruned partitions, every row whose geometry intersects the box is present, '
-        'and the bounds afterwards are the kept rows of the recorded bounds re-indexed from 0, for every column. '
+        'normalised box, their rows are those of the unpruned partitions, every row whose own bbox overlaps the box (a superset '
+        'of the rows that intersect it) is present, and the bounds afterwards (_partition_bounds[col], ddf[col].partition_bounds) '
+        'are the kept rows of the recorded bounds re-indexed from 0, for every column. '
         'Non-trivial: >= 2 loaded partitions and a box that keeps a proper subset (possibly none) of them. distinct = distinct cases.')
 ASSUMPTIONS = ['pyarrow decodes the stored elements (canonical form) correctly',
                'coordinates are finite (an extent is either fully defined or NaN)',
@@ -136,10 +138,11 @@ def _build_frame(case, rows, B):
 
 def evaluate(case):
     import dask
-    from pyarrow.parquet import read_metadata
+    from pyarrow.parquet import read_metadata, read_table
     from spatialpandas.io import read_parquet_dask
     writer = case['writer']
-    B = ['C12', writer]
+    B = ['C12', writer]                 # writing and the metadata file: one mechanism per writer
+    BR, BP = ['C12', 'read'], ['C12', 'prune']   # loading and pruning do not depend on the writer
     geoms = {g['name']: g for g in case['geoms']}
     gcols = [c for c in case['order'] if c in geoms]
     fails = []
@@ -178,47 +181,52 @@ def evaluate(case):
               str([{k: v for k, v in ds.items() if k != "rows"} for ds in case['datasets']])
 
         # ---- unpruned read: truth per loaded partition
-        full = lib(B + ['read_parquet_dask'], read_parquet_dask, target, **gkw)
-        parts = list(lib(B + ['compute-partitions'], lambda: dask.compute(*full.to_delayed())))
+        full = lib(BR + ['read_parquet_dask'], read_parquet_dask, target, **gkw)
+        parts = list(lib(BR + ['compute-partitions'], lambda: dask.compute(*full.to_delayed())))
         k = len(parts)
         labels.append('loaded-partitions:1' if k == 1 else ('loaded-partitions:2-10' if k <= 10 else 'loaded-partitions:11+'))
         truth = {c: [model.ref_total_bounds(geoms[c]['kind'], model.to_canonical(p[c].array)) for p in parts] for c in gcols}
         if any(all(v != v for v in t) for t in truth[active]):
             labels.append('nan-extent-partition(active)')
 
-        # ---- the metadata file(s)
-        stored = {c: [] for c in gcols}
+        # ---- the metadata file(s): row i of the JSON against the rows stored in file part.i.parquet (read with pyarrow only)
         meta_problem = None
+        nfiles = 0
         for j in ordered:
             md = read_metadata(os.path.join(paths[j], '_common_metadata')).metadata
             if b'spatialpandas' not in md:
-                meta_problem = 'no spatialpandas key in _common_metadata'
+                meta_problem = ('malformed', 'no spatialpandas key in _common_metadata')
                 break
             pb = json.loads(md[b'spatialpandas'].decode('utf')).get('partition_bounds', {})
+            files = [f for f in os.listdir(paths[j]) if f.startswith('part.') and f.endswith('.parquet')]
+            nfiles += len(files)
             for c in gcols:
-                if c not in pb:
-                    meta_problem = f'no bounds for column {c} in _common_metadata'
+                cols = pb.get(c)
+                if cols is None or sorted(cols) != sorted(BCOLS):
+                    meta_problem = ('malformed', f'bounds of column {c}: {None if cols is None else sorted(cols)}')
                     break
-                cols = pb[c]
-                m = len(cols.get('x0', {}))
-                try:
-                    stored[c].extend(tuple(float(cols[b][str(i)]) for b in BCOLS) for i in range(m))
-                except KeyError as e:
-                    meta_problem = f'column {c}: key {e} absent from {sorted(cols.get("x0", {}))}'
+                if sorted(cols['x0'], key=str) != sorted((str(i) for i in range(len(files))), key=str):
+                    meta_problem = ('malformed', f'column {c}: rows {sorted(cols["x0"])} for {len(files)} part files')
+                    break
+                for i in range(len(files)):
+                    rids = read_table(os.path.join(paths[j], f'part.{i}.parquet'), columns=['rid']).column('rid').to_pylist()
+                    exp = model.ref_total_bounds(geoms[c]['kind'], model.canon_elements([geoms[c]['elements'][r] for r in rids]))
+                    got = tuple(float(cols[b][str(i)]) for b in BCOLS)
+                    if not model.same_row(got, exp):
+                        meta_problem = ('differs-from-stored-rows', f'column {c}, dataset {case["datasets"][j]["name"]}: row "{i}" is {list(got)} '
+                                        f'but part.{i}.parquet holds rows {rids} spanning {list(exp)}')
+                        break
+                if meta_problem:
                     break
             if meta_problem:
                 break
         bounds_ok = True
         if meta_problem:
-            fails.append((B + ['metadata-file', 'malformed'], f'{meta_problem}; {ctx}'))
+            fails.append((B + ['metadata-file', meta_problem[0]], f'{meta_problem[1]}; {ctx}'))
             bounds_ok = False
-        else:
-            for c in gcols:
-                err = _cmp_rows(stored[c], truth[c])
-                if err:
-                    fails.append((B + ['metadata-file', 'differs-from-stored-rows'], f'column {c}: {err}; {ctx}'))
-                    bounds_ok = False
-                    break
+        elif nfiles != k:
+            fails.append((BR + ['partition-count'], f'{nfiles} part files but {k} partitions loaded; {ctx}'))
+            bounds_ok = False
         # ---- what read_parquet_dask exposes
         recorded = {}
         if bounds_ok:
@@ -229,17 +237,17 @@ def evaluate(case):
                 if not err and [int(v) for v in df.index.tolist()] != list(range(k)):
                     err = f'index {df.index.tolist()} is not 0..{k - 1}'
                 if err:
-                    fails.append((B + ['_partition_bounds', 'differs-from-stored-rows'], f'column {c}: {err}; {ctx}'))
+                    fails.append((BR + ['_partition_bounds', 'differs-from-stored-rows'], f'column {c}: {err}; {ctx}'))
                     bounds_ok = False
                     break
         if bounds_ok:
             for c in gcols:
-                df = lib(B + ['series.partition_bounds'], lambda c=c: full[c].partition_bounds)
+                df = lib(BR + ['series.partition_bounds'], lambda c=c: full[c].partition_bounds)
                 err = _cmp_rows(_bounds_rows(df), truth[c])
                 if not err and [int(v) for v in df.index.tolist()] != list(range(k)):
                     err = f'index {df.index.tolist()} is not 0..{k - 1}'
                 if err:
-                    fails.append((B + ['series.partition_bounds', 'differs-from-stored-rows'], f'column {c}: {err}; {ctx}'))
+                    fails.append((BR + ['series.partition_bounds', 'differs-from-stored-rows'], f'column {c}: {err}; {ctx}'))
                     bounds_ok = False
                     break
 
@@ -261,8 +269,8 @@ def evaluate(case):
                 if k >= 2 and len(expected) < k:
                     nt = True
                 bctx = f'box={box} active={active} recorded={[list(r) for r in recorded[active]]}; {ctx}'
-                pr = lib(B + ['read_parquet_dask', 'bounds'], read_parquet_dask, target, bounds=tuple(box), **gkw)
-                pparts = list(lib(B + ['compute-partitions', 'bounds'], lambda: dask.compute(*pr.to_delayed())))
+                pr = lib(BP + ['read_parquet_dask'], read_parquet_dask, target, bounds=tuple(box), **gkw)
+                pparts = list(lib(BP + ['compute-partitions'], lambda: dask.compute(*pr.to_delayed())))
                 got_rids = [_rids(p) for p in pparts]
                 if not expected and got_rids == [()] and not len(pr._partition_bounds.get(active, ())):
                     kept = []           # nothing kept: the library answers with one row-less placeholder partition
@@ -270,23 +278,26 @@ def evaluate(case):
                     kept = expected
                 else:
                     kept = _subsequence(got_rids, full_rids)
-                    extra = None if kept is None else [i for i in kept if i not in expected]
-                    if kept is not None and not [i for i in expected if i not in kept] and \
-                            all(all(v != v for v in recorded[active][i]) for i in extra):
-                        b = B + ['prune', 'nan-extent-partition-kept']
+                    extra = [] if kept is None else [i for i in kept if i not in expected]
+                    if kept is None:
+                        what = 'kept-partitions-are-not-partitions-of-the-dataset'
+                    elif [i for i in expected if i not in kept]:
+                        what = 'overlapping-partition-dropped'
+                    elif all(all(v != v for v in recorded[active][i]) for i in extra):
+                        what = 'nan-extent-partition-kept'
                         labels.append('pruning-kept-a-nan-extent-partition')
                     else:
-                        b = B + ['prune', 'kept-partitions-differ']
-                    if tuple(b) not in seen:
-                        seen.add(tuple(b))
-                        fails.append((b, f'expected partitions {expected} kept, got rows {got_rids} = partitions {kept}; {bctx}'))
-                    if b[-1] != 'nan-extent-partition-kept':
+                        what = 'non-overlapping-partition-kept'
+                    if what not in seen:
+                        seen.add(what)
+                        fails.append((BP + [what], f'expected partitions {expected} kept, got rows {got_rids} = partitions {kept}; {bctx}'))
+                    if what != 'nan-extent-partition-kept':
                         continue
                 # bounds reported afterwards: those of the partitions kept, re-indexed from 0, for every column
                 for c in gcols:
                     exp_rows = [recorded[c][i] for i in kept]
                     for where, df in (('_partition_bounds', pr._partition_bounds.get(c)),
-                                      ('series.partition_bounds', lib(B + ['series.partition_bounds', 'bounds'], lambda c=c: pr[c].partition_bounds)
+                                      ('series.partition_bounds', lib(BP + ['series.partition_bounds'], lambda c=c: pr[c].partition_bounds)
                                        if kept else None)):
                         if where == 'series.partition_bounds' and not kept:
                             continue
@@ -299,20 +310,17 @@ def evaluate(case):
                         elif [int(v) for v in df.index.tolist()] != list(range(len(kept))):
                             err = f'index {df.index.tolist()} not re-indexed from 0'
                         if err:
-                            b = B + ['prune', 'bounds-after-pruning', where]
-                            if tuple(b[:4]) not in seen:
-                                seen.add(tuple(b[:4]))
-                                fails.append((b, f'column {c}: {err}; {bctx}'))
+                            if 'bounds-after-pruning' not in seen:
+                                seen.add('bounds-after-pruning')
+                                fails.append((BP + ['bounds-after-pruning', where], f'column {c}: {err}; {bctx}'))
                             break
                 # hence every row that intersects the box is present (necessary condition used: its bbox overlaps the box)
                 present = set(r for rr in got_rids for r in rr)
                 lost = [rid for rr, bbs in zip(full_rids, row_boxes) for rid, rb in zip(rr, bbs)
                         if _overlaps(rb, nbox) and rid not in present]
-                if lost and not any(f[0][2:4] == ['prune', 'kept-partitions-differ'] for f in fails):
-                    b = B + ['prune', 'intersecting-row-lost']
-                    if tuple(b) not in seen:
-                        seen.add(tuple(b))
-                        fails.append((b, f'rows {lost} intersect the box but are absent; {bctx}'))
+                if lost and 'intersecting-row-lost' not in seen:
+                    seen.add('intersecting-row-lost')
+                    fails.append((BP + ['intersecting-row-lost'], f'rows {lost} intersect the box but are absent; {bctx}'))
     finally:
         shutil.rmtree(root, ignore_errors=True)
     for g in case['geoms']:
@@ -386,6 +394,24 @@ def _composition(draw, n, k, allow_empty):
     return [b - a for a, b in zip(edges[:-1], edges[1:])]
 
 
+def _candidate_extents(writer, datasets, ag):
+    """defined extents in the active column that boxes are aimed at: the written partitions (to_parquet), single rows (pack)"""
+    kind, els = ag['kind'], ag['elements']
+    out = []
+    if writer == 'to_parquet':
+        for ds in datasets:
+            pos = 0
+            for sz in ds['sizes']:
+                rows = ds['rows'][pos:pos + sz]
+                pos += sz
+                b = model.ref_total_bounds(kind, [els[r] for r in rows])
+                if b[0] == b[0]:
+                    out.append(b)
+    else:
+        out = [model.ref_bounds_flat(model.flat_coords(kind, e)) for e in els if not model.is_inert(kind, e)]
+    return out
+
+
 @st.composite
 def _case(draw):
     writer = draw(st.sampled_from(['to_parquet', 'to_parquet', 'pack']))
@@ -422,17 +448,41 @@ def _case(draw):
     active = geometry or [c for c in order if c in names][0]
     ag = next(g for g in geoms if g['name'] == active)
     flat = [v for e in ag['elements'] if not model.is_inert(ag['kind'], e) for v in model.flat_coords(ag['kind'], e)]
+    extents = _candidate_extents(writer, datasets, ag)
     boxes = []
     for _ in range(draw(st.integers(1, 3))):
-        mode = draw(st.sampled_from(['feature', 'feature', 'feature', 'far', 'all']))
-        if mode == 'far' or not flat:
+        mode = draw(st.sampled_from(['touch', 'touch', 'touch', 'feature', 'feature', 'inside', 'far', 'all']))
+        if mode == 'far' or not extents:
             b = [100.0, 100.0, 101.0 + draw(st.integers(0, 3)), 103.0]
-            if draw(st.booleans()):
-                b = [b[2], b[1], b[0], b[3]]
         elif mode == 'all':
             b = [-1.0, -1.0, 30.0, 30.0]
-        else:
+        elif mode == 'feature':
             b = draw(gen.feature_boxes(flat, 1, allow_degenerate=True))
+        else:
+            ex0, ey0, ex1, ey1 = draw(st.sampled_from(extents))
+            if mode == 'inside':
+                b = [ex0, ey0, draw(st.sampled_from([ex0, ex1, (ex0 + ex1) / 2])), draw(st.sampled_from([ey0, ey1, (ey0 + ey1) / 2]))]
+            else:
+                d = draw(st.sampled_from([0, 0.5, 1, 3]))
+                lo, hi = draw(st.sampled_from([0, 0.5, 2])), draw(st.sampled_from([0, 0.5, 2]))
+                side = draw(st.sampled_from(['left', 'right', 'bottom', 'top', 'corner']))
+                if side == 'right':
+                    b = [ex1, ey0 - lo, ex1 + d, ey1 + hi]
+                elif side == 'left':
+                    b = [ex0 - d, ey0 - lo, ex0, ey1 + hi]
+                elif side == 'top':
+                    b = [ex0 - lo, ey1, ex1 + hi, ey1 + d]
+                elif side == 'bottom':
+                    b = [ex0 - lo, ey0 - d, ex1 + hi, ey0]
+                else:
+                    cx, sx = draw(st.sampled_from([(ex0, -1), (ex1, 1)]))
+                    cy, sy = draw(st.sampled_from([(ey0, -1), (ey1, 1)]))
+                    b = [cx, cy, cx + sx * d, cy + sy * d]
+        b = [float(v) for v in b]
+        if draw(st.booleans()):
+            b = [b[2], b[1], b[0], b[3]]
+        if draw(st.booleans()):
+            b = [b[0], b[3], b[2], b[1]]
         boxes.append(b)
     case = {'writer': writer, 'geoms': geoms, 'order': order, 'input_geometry': input_geometry, 'datasets': datasets,
             'read': read, 'geometry': geometry, 'boxes': boxes}
